@@ -689,6 +689,22 @@ def tie_routing(ctx, drv):
         if (main, recv, queue) != (m_main, m_recv, m_queue):
             ctx.mismatch(case, {"main": main, "recv": recv, "queue": queue},
                          {"main": m_main, "recv": m_recv, "queue": m_queue}, "routing: model != implementation")
+        # the property itself, judged on the implementation: the READ stream carries every well-formed line in order,
+        # whatever happens to the (bounded, possibly never drained) notification stream; the notification stream carries
+        # notifications only, in order, none twice
+        want = list(range(1, tag))
+        ctx.spec_total += 1
+        if main != want:
+            klass = "main:" + (classify(want, main) or "differs") + (":notification-buffer-full" if len(recv) + len(queue) < n_notif else "")
+            ctx.spec_violation(klass, case, f"{len(want)} well-formed lines written, {len(main)} delivered on the read stream; "
+                                            f"first missing tag {next((t for t in want if t not in set(main)), None)}")
+        offered = recv + queue
+        notif_tags = [int(e[1:].split(" ")[0]) for e in evs if e.endswith(" 1)")]
+        it = iter(notif_tags)
+        ctx.spec_total += 1
+        if not all(any(x == y for y in it) for x in offered):
+            ctx.spec_violation("notifications:not-a-subsequence-of-the-notifications-written", case,
+                               f"offered {offered[:20]}...")
 
 
 async def _text_chunk_run(chunks):
